@@ -36,13 +36,36 @@ def _bufsize(repo):
     return None, "no bufio writer found"
 
 
-def run(ctx):
-    n, how = _bufsize(ctx.repo)
-    if n is None:
-        ctx.assumptions.append("buffer size could not be read from writefile.go (%s); 65536 assumed" % how)
-        n = 65536
+def _calibrate(ctx):
+    """The buffer size is not constrained by the property: measure it from the behaviour of the code under test
+    (`harness calibrate`: bytes a callback can hand over before anything reaches the temporary file, cross-checked
+    with N,1 / N+1 / N-1,1,1 probes) and give the measured value to generators, harness and model driver."""
+    measured = None
+    try:
+        p = subprocess.run([ctx.harness_bin["harness"], "calibrate"], cwd=ctx.work, stdout=subprocess.PIPE,
+                           stderr=subprocess.STDOUT, text=True, timeout=300)
+        out = (p.stdout.strip().splitlines() or ["fail: no output"])[-1]
+    except Exception as e:  # noqa: BLE001
+        out = "fail: %s" % e
+    m = re.fullmatch(r"ok (\d+)", out)
+    if m and int(m.group(1)) > 0:
+        measured = int(m.group(1))
+    parsed, how = _bufsize(ctx.repo)
+    ctx.extra["bufsize_measured"] = measured if measured is not None else out
+    if measured is not None:
+        n, src = measured, "measured from behaviour (harness calibrate)"
+    elif parsed is not None:
+        n, src = parsed, "calibration failed (%s); parsed from writefile.go: %s" % (out, how)
+        ctx.assumptions.append("buffer size calibration failed (%s); the value parsed from the source text is used" % out)
+    else:
+        n, src = 65536, "calibration failed (%s) and source not understood (%s); default" % (out, how)
+        ctx.assumptions.append("buffer size could neither be measured (%s) nor read from writefile.go (%s); 65536 assumed"
+                               % (out, how))
     os.environ["C14_BUFSIZE"] = str(n)
-    ctx.extra["buffer_size"] = {"value": n, "source": how}
+    ctx.extra["buffer_size"] = {"value": n, "source": src, "source_text": how if parsed is not None else None}
+
+
+def run(ctx):
     shards = 14 if ctx.tier == "thorough" else 8
     os.environ["C14_SHARDS"] = str(shards)
     ctx.modelled += [
@@ -52,8 +75,8 @@ def run(ctx):
         "unlink of the process's own temporary file is assumed to succeed",
         "bufio.Writer is transcribed with its sticky error (Safe.BW.write/flush test err first; Lemmas writeFile_closed "
         "proves it equal to the closed form chunk rule Safe.bufWrite + stop at the failing write, for every callback "
-        "behaviour); the buffer size is read from "
-        "writefile.go and passed to model and generators, the theorems hold for every size",
+        "behaviour); the buffer size is measured from the code's behaviour "
+        "(harness calibrate) and passed to model and generators, the theorems hold for every size",
     ]
     ctx.assumptions += [
         "page-cache content survives SIGKILL of the writer (no power loss); durability (fsync) is not part of the property",
@@ -65,6 +88,7 @@ def run(ctx):
     ctx.lean(props=["Props.C14"], drivers=["drv_c14"])
     if not ctx.harness("./cmd/c14"):
         return
+    _calibrate(ctx)
     thm = ("C14.dest_old_or_new_at_every_prefix / failure_leaves_dst / failure_removes_tmp / commit_result / "
            "close_commit_idempotent are about Safe.writeFile and Safe.File.*; implementation != model on this input")
     ctx.diff(area="api", driver="drv_c14", n={"quick": 6000, "thorough": 300000}, stateful=True, theorem=thm,
